@@ -42,6 +42,7 @@ bool LoadScenario(const js::J& j, Scenario* s, string* err) {
       st.cmd = sj["cmd"].str();
       st.spec = ParseCmd(st.cmd);
       if (!st.phony && !st.spec.valid) { *err = "bad cmd for " + st.id + ": " + st.cmd; return false; }
+      st.rule = sj["rule"].str();
       st.pool = sj["pool"].str();
       st.restat = sj["restat"].boolean(false);
       st.generator = sj["generator"].boolean(false);
@@ -81,6 +82,9 @@ bool LoadScenario(const js::J& j, Scenario* s, string* err) {
       op.j = (int)oj["j"].num(1);
       op.k = (int)oj["k"].num(1);
       op.tool = oj["tool"].boolean(false);
+      op.tool_kind = oj["tool_kind"].str();
+      op.tool_args = oj["tool_args"].strs();
+      op.tool_dry = oj["tool_dry"].boolean(false);
       op.dry_run = oj["dry_run"].boolean(false);
       op.cfg.args = op.flags;
       for (auto& t : op.targets) op.cfg.args.push_back(t);
